@@ -373,6 +373,8 @@ class Rec(Obj):
             return [('ok', st, self.get(st, name))]
         if name in self.methods:
             return [('ok', st, self.methods[name])]
+        if self.label == 'self' and ex.unit.resolve_method(name) is not None:
+            return [('ok', st, BoundMethod(self, name))]
         raise Unsupported(f'{self.label}.{name} (line {getattr(node, "lineno", "?")})')
 
     def call(self, ex, st, meth, args, kwargs, node):
@@ -380,6 +382,15 @@ class Rec(Obj):
             return ex.call_value(st, self.methods[meth], args, kwargs, node)
         if self.has(st, meth):
             return ex.call_value(st, self.get(st, meth), args, kwargs, node)
+        # a method of the class under verification that the contract does not model (e.g. a helper extracted by a refactoring):
+        # its real body is inlined (caller checked against the callee's code, not a contract)
+        if self.label == 'self':
+            res = ex.unit.resolve_method(meth)
+            if res is not None:
+                fn, static = res
+                from .core import Closure
+                ex.note_ignored(node, f'method `{meth}` has no contract: its body (line {fn.lineno}) is inlined')
+                return ex.inline(st, Closure(fn, ex), (list(args) if static else [self] + list(args)), kwargs, node)
         raise Unsupported(f'{self.label}.{meth}()')
 
     def havoc(self, ex, st):
